@@ -11,6 +11,11 @@ NOTES = ("Contract-based deductive verification. Each check extracts the real fu
          "otherwise labelled bounded and not counted) discharge every obligation. Exit 2 = undecided (lost anchor / unsupported construct / solver limit), never an alarm.")
 
 CLAIMS = {
+    "C04": dict(
+        technique="Verus contracts on anchored fragments of the real SyncStateV1::compute_available_needs (guards, Full-need loop with loop invariants, tail request), extracted each run",
+        text="Unbounded proof (any number of ranges, all u64 versions) that the Full requests computed for an actor are exactly our gap ranges intersected with the peer's fully-held set (sound and complete), that nothing is requested for the node's own actor id or a zero head, and that the tail request is (our_head+1 ..= peer_head). The Partial-need branches and the construction of the peer-held set are not under contract.",
+        note="Fragments are wrapped as functions over their free variables (self->this, continue->return). Assumed: contracts of RangeInclusiveSet::overlapping, HashMap get/entry().or_default(), cmp::max/min on &newtype. Partial branches (closure chains) are NOT decided.",
+    ),
     "C18": dict(
         technique="Verus contract on the extracted real Members::remove_member / MemberState::{new,is_ring0} (maps of any size); Kani inductive transition contracts on the extracted add_member / add_rtt / recalculate_rings / ring0 (bounded state, labelled bounded); replay search on the real crate",
         text="remove_member, MemberState::new and is_ring0 are proved unbounded in Verus against the newest-identity statement. add_member, add_rtt/recalculate_rings and ring0 use closures Verus cannot take; they are checked by Kani as inductive steps from an arbitrary state with <=2 members (history length unbounded, state size bounded) and are reported as bounded stand-ins, not as proved.",
@@ -45,7 +50,6 @@ NOT_APPLICABLE = {
     "C20": "tokio concurrency (exclusion, priority, deadlock freedom); outside Kani (no threads) and Verus (needs its own sync primitives)",
     # not yet built — removed from this list as each check lands
     "C03": "check not built yet in this round (planned: DESIGN.md §5/C03)",
-    "C04": "check not built yet in this round (planned: DESIGN.md §5/C04)",
     "C05": "check not built yet in this round (planned: DESIGN.md §5/C05)",
     "C07": "check not built yet in this round (planned: DESIGN.md §5/C07)",
     "C09": "check not built yet in this round (planned: DESIGN.md §5/C09)",
